@@ -29,7 +29,7 @@ ASSUMPTIONS = [
     "the parser input is the latin-1 decoded command with literals already assembled as '{n}\\r\\n<n octets>' and no trailing CRLF, exactly what IMAPClientProxy.run() and server.unauthenticated() pass",
     "only asimap.parse.BadCommand (and subclasses) is turned into a BAD reply by both callers; any other exception type escaping parse() is a dropped connection",
     "the internal name of INBOX is 'inbox'; search strings, header names, flags, charset, mechanism names are compared case-insensitively, sequence ranges modulo order of the two ends, AND-lists modulo flattening",
-    "a mailbox name that differs from the denoted string only by os.path.normpath is recorded as an observation, not a violation",
+    "a mailbox name that differs from the denoted string only by os.path.normpath, or by the removal of the single leading '/' that is the server's name-space prefix, is recorded as an observation, not a violation",
     "a sentence whose mailbox name is absolute or has a '..' component may be rejected (refusing names that leave the mail root is C09's demand); if accepted it is compared like any other",
     "APPEND literal text is observed by wrapping asimap.parse.message_from_string for the duration of one parse",
 ]
@@ -281,6 +281,13 @@ class Judge:
             return
         if exp != "" and posixpath.normpath(exp) == got:
             self.obs.append("obs:normpath-changed-name")
+            return
+        # `/` is the server's name-space prefix: `/x` and `x` are the same mailbox (user_server.get_mailbox
+        # has always treated them so; since the C09 repair the parser removes the prefix itself, except from
+        # the LIST reference).  Same category as normpath: an observation, not a different denotation.
+        np_ = posixpath.normpath(exp) if exp != "" else exp
+        if field != "list_reference" and np_.startswith("/") and not np_.startswith("//") and np_[1:] == got:
+            self.obs.append("obs:namespace-prefix-removed")
             return
         self.v("C08.ast", field, f"{field}: the line names mailbox {exp!r}, parsed {got!r}")
 
